@@ -970,6 +970,10 @@ where
             Poll::Ready(v) => Poll::Ready(OpRes::Done(v)),
             Poll::Pending => {
                 this.started = true;
+                // what happened before this poll is no wake-up the operation is owed: the gate counts from here
+                if let Some(g) = this.gate {
+                    this.gate_seen = Some(g());
+                }
                 this.run.pendings = this.run.pendings.saturating_add(1);
                 if let Some(&k) = this.run.plan.at.get(this.run.idx) {
                     if this.run.pendings >= k.max(1) {
